@@ -162,6 +162,7 @@ impl<'a> Gen<'a> {
                 let n = self.rng.below(6) as usize;
                 steps.push(Step::SetData { data: Binary::from(self.rng.bytes(n)) })
             }
+            8 if self.rng.chance(1, 25) => steps.push(Step::Panic { tag: format!("r{}", self.nonce()) }),
             8 => steps.push(Step::Attr { k: "k".into(), v: self.rng.word() }),
             _ => {
                 if depth < 3 {
